@@ -4,7 +4,7 @@ import ElkVerif.Model.DateFmt
 # C22 — Calendar arithmetic is exact, never wraps, and formatting round-trips
 -/
 namespace Elk.C22
-open Elk.Civil Elk.Date
+open Elk.Civil Elk.Date Elk.DateFmt
 
 /-! ## The civil calendar: day numbers ↔ dates, for ALL integer years and ALL day numbers -/
 
@@ -116,5 +116,111 @@ example : Date.addDateSpan (makeDate 2000 1 1) ⟨0, 106752⟩ = .ok (makeDate 2
 example : Date.subDateSpan (makeDate 2023 3 31) ⟨1, 0⟩ = .ok (makeDate 2023 2 28) := by decide
 example : Date.subDateSpan (makeDate (-1) 3 15) ⟨0, 0⟩ = .ok (makeDate (-1) 3 15) := by decide
 example : InRange 2024 ∧ Valid 2024 2 29 := by decide
+
+/-! ## difference of two dates -/
+
+/-- `d₁ - d₂` is the field-wise difference -/
+theorem diff_fieldwise (y1 m1 a y2 m2 b : Int) (hy1 : InRange y1) (hv1 : Valid y1 m1 a)
+    (hy2 : InRange y2) (hv2 : Valid y2 m2 b) :
+    (makeDate y1 m1 a).diffDate (makeDate y2 m2 b) = ⟨monthIndex y1 m1 - monthIndex y2 m2, a - b⟩ :=
+  diffDate_valid y1 m1 a y2 m2 b hy1 hv1 hy2 hv2
+
+/-- the property as written: adding the difference back gives the first date — for ALL pairs of dates -/
+def DiffAddInverse : Prop :=
+  ∀ y1 m1 a y2 m2 b : Int, InRange y1 → Valid y1 m1 a → InRange y2 → Valid y2 m2 b →
+    Date.addDateSpan (makeDate y2 m2 b) ((makeDate y1 m1 a).diffDate (makeDate y2 m2 b)) = .ok (makeDate y1 m1 a)
+
+/-- it fails on the code as it is: 2023-02-28 + (2023-03-31 − 2023-02-28) = 2023-04-03 -/
+theorem diff_add_witness :
+    Date.addDateSpan (makeDate 2023 2 28) ((makeDate 2023 3 31).diffDate (makeDate 2023 2 28))
+      = .ok (makeDate 2023 4 3) := by
+  rw [diff_fieldwise 2023 3 31 2023 2 28 (by decide) (by decide) (by decide) (by decide)]
+  decide
+
+theorem diffAddInverse_fails : ¬ DiffAddInverse := by
+  intro h
+  have := h 2023 3 31 2023 2 28 (by decide) (by decide) (by decide) (by decide)
+  rw [diff_add_witness] at this
+  exact absurd this (by decide)
+
+/-- it holds exactly under the hypothesis that excludes the defect: the day of month of the first date
+exists in the month of the second (always true for days ≤ 28) -/
+theorem diff_add_partial (y1 m1 a y2 m2 b : Int) (hy1 : InRange y1) (hv1 : Valid y1 m1 a)
+    (hy2 : InRange y2) (hv2 : Valid y2 m2 b) (ha : a ≤ daysInMonth y2 m2) :
+    Date.addDateSpan (makeDate y2 m2 b) ((makeDate y1 m1 a).diffDate (makeDate y2 m2 b)) = .ok (makeDate y1 m1 a) := by
+  rw [diff_fieldwise y1 m1 a y2 m2 b hy1 hv1 hy2 hv2, add_span_calendar y2 m2 b hy2 hv2]
+  have hva : Valid y2 m2 a := ⟨hv2.1, hv2.2.1, hv1.2.2.1, ha⟩
+  have e1 : daysFromCivil y2 m2 b + (a - b) = daysFromCivil y2 m2 a := by
+    have := daysFromCivil_add_day y2 m2 b (a - b)
+    have e : b + (a - b) = a := by omega
+    rw [e] at this; omega
+  simp only [calendarAdd, e1, civilFromDays_daysFromCivil y2 m2 a hva, monthIndex]
+  have h1 := hv1.1; have h1' := hv1.2.1
+  have ey : (y2 * 12 + (m2 - 1) + (y1 * 12 + (m1 - 1) - (y2 * 12 + (m2 - 1)))) / 12 = y1 := by omega
+  have em : (y2 * 12 + (m2 - 1) + (y1 * 12 + (m1 - 1) - (y2 * 12 + (m2 - 1)))) % 12 + 1 = m1 := by omega
+  rw [ey, em, if_pos hy1]
+  have : min a (daysInMonth y1 m1) = a := by have := hv1.2.2.2; omega
+  rw [this]
+
+example : InRange 2023 ∧ Valid 2023 3 28 ∧ Valid 2023 2 28 ∧ (28 : Int) ≤ daysInMonth 2023 2 := by decide
+
+/-! ## formatting and parsing -/
+
+/-- the property as written: `Date.parse(d.to_string)` is `d` for every representable date -/
+def FormatParseRoundtrip : Prop :=
+  ∀ y m d : Int, InRange y → Valid y m d →
+    parseDate defaultDateFormat (dateString (makeDate y m d)) = .ok (makeDate y m d)
+
+/-- it fails for negative years (`%Y` is read as at most four unsigned digits) … -/
+theorem format_parse_negative_year_witness :
+    parseDate defaultDateFormat (dateString (makeDate (-5) 3 1)) = .err .format := by decide
+
+/-- … and for years above 9999 -/
+theorem format_parse_five_digit_year_witness :
+    parseDate defaultDateFormat (dateString (makeDate 10000 1 1)) = .err .format := by decide
+
+theorem formatParseRoundtrip_fails : ¬ FormatParseRoundtrip := by
+  intro h
+  have := h (-5) 3 1 (by decide) (by decide)
+  rw [format_parse_negative_year_witness] at this
+  exact absurd this (by decide)
+
+/-- `to_string` is the default format -/
+theorem dateString_eq_format (y m d : Int) :
+    formatDate defaultDateFormat (makeDate y m d) = .ok (dateString (makeDate y m d)) := by
+  have hs : scan defaultDateFormat =
+      [.year .zero, .text ['-'], .month .zero, .text ['-'], .dayOfMonth .zero] := by decide
+  unfold formatDate
+  rw [hs]
+  simp [fmtToks, fmtDateTok, fmtPad, dateString, bind, Except.bind, pure, Except.pure]
+
+/-- sample round trips (tests of the statement on boundary dates, not a proof of it) -/
+example : parseDate defaultDateFormat (dateString (makeDate 2024 2 29)) = .ok (makeDate 2024 2 29) := by decide
+example : parseDate defaultDateFormat (dateString (makeDate 0 1 1)) = .ok (makeDate 0 1 1) := by decide
+example : parseDate defaultDateFormat (dateString (makeDate 9999 12 31)) = .ok (makeDate 9999 12 31) := by decide
+
+/-- `Span.parse(s.to_string) == s`, as a check -/
+def dateSpanRt (mo da : Int) : Bool :=
+  match parseDateSpan (dateSpanString ⟨mo, da⟩) with | .ok s => decide (s = ⟨mo, da⟩) | _ => false
+def timeSpanRt (ns : Int) : Bool :=
+  match parseTimeSpan (timeSpanString ns) with | .ok t => decide (t = ns) | _ => false
+def dateTimeSpanRt (s : DateTimeSpan) : Bool :=
+  match parseDateTimeSpan (dateTimeSpanString s) with | .ok t => decide (t = s) | _ => false
+
+/-- span strings: the property as written, for the three span types (normalised `DateTime::Span`s) -/
+def SpanRoundtrip : Prop :=
+  (∀ mo da : Int, -2147483648 ≤ mo → mo < 2147483648 → -2147483648 ≤ da → da < 2147483648 → dateSpanRt mo da = true) ∧
+  (∀ ns : Int, -9223372036854775808 ≤ ns → ns < 9223372036854775808 → timeSpanRt ns = true) ∧
+  (∀ mo da ns : Int, -2147483648 ≤ mo → mo < 2147483648 → -2147483447 ≤ da → da < 2147483447 →
+      -9223372036854775808 ≤ ns → ns < 9223372036854775808 → dateTimeSpanRt (newDateTimeSpan ⟨mo, da⟩ ns) = true)
+
+/-- sample span round trips at the boundaries (tests; `SpanRoundtrip` itself is tied by correspondence only) -/
+example : dateSpanRt (-14) (-3) = true := by decide
+example : dateSpanRt 2147483647 (-2147483648) = true := by decide
+example : dateSpanRt 0 0 = true := by decide
+example : timeSpanRt (-9223372036854775808) = true := by decide
+example : timeSpanRt 5400000000001 = true := by decide
+example : timeSpanRt 0 = true := by decide
+example : dateTimeSpanRt (newDateTimeSpan ⟨14, 3⟩ (-5400000000001)) = true := by decide
 
 end Elk.C22
